@@ -50,14 +50,14 @@ def run(ck, facts, tier):
         cur = Sym("mut", "insert", vkey(Sym("mut", "insert", vkey(cur0), (vkey(fld(q0, "pair", "0")),))), (vkey(fld(q0, "pair", "1")),))
         q = Poly.atom(("len", vkey(cur), None))
         empty = vkey(Sym("m", "is_empty", vkey(RATES), ()))
-        under = vkey(cel.cmp_sym("Gt", q, n + Poly.const(1), True))
-        over = vkey(cel.cmp_sym("Lt", q, n + Poly.const(1), True))
+        under, under_p = paths.lit(cel.cmp_sym("Gt", q, n + Poly.const(1), True))
+        over, over_p = paths.lit(cel.cmp_sym("Lt", q, n + Poly.const(1), True))
         first = fld(Poly.atom(("call", "index", (vkey(RATES), Poly.const(0).key()))), "settlement")
         some_arm, none_arm = ("arm", ("Some", "_"), vkey(first)), ("arm", "None", vkey(first))
         dset = fld(at(RATES, "q0"), "settlement")
         date = Sym("payload", vkey(first), 0)
         all_some = vkey(Sym("forall", vkey(RATES), vkey(Sym("optcase", "map_or", vkey(dset), (vkey(Sym("bool", "false")),),
-                                                                vkey(Sym("cmp", "Eq", vkey(Sym("payload", vkey(dset), 0)), vkey(date)))))))
+                                                                vkey(cel.eq_sym(Sym("payload", vkey(dset), 0), date))))))
         all_none = vkey(Sym("forall", vkey(RATES), vkey(Sym("optcase", "map_or", vkey(dset), (vkey(Sym("bool", "true")),), vkey(Sym("bool", "false"))))))
         ps = paths.flatten(got)
         errs = [(dict(c), v) for c, v in ps if isinstance(v, Sym) and v.tag[:2] == ("ctor", "Err")]
@@ -65,14 +65,14 @@ def run(ck, facts, tier):
         def has_err(pred):
             return any(pred(c) for c, _ in errs)
         ck.check(r1, "try_new[%s]:empty" % base_name, has_err(lambda c: c == {empty: True}), "an empty quote list is not rejected first", where, sample="fx_rates.is_empty() -> Err")
-        ck.check(r1, "try_new[%s]:underspecified" % base_name, has_err(lambda c: c.get(under) is True and c.get(empty) is False),
+        ck.check(r1, "try_new[%s]:underspecified" % base_name, has_err(lambda c: c.get(under) is under_p and c.get(empty) is False),
                  "n_currencies > n_quotes + 1 is not rejected (currencies = base + both sides of every quote)", where, detail=paths.fmt_paths(got)[:600], sample="q > n + 1 -> Err")
-        ck.check(r1, "try_new[%s]:overspecified" % base_name, has_err(lambda c: c.get(over) is True and c.get(under) is False),
+        ck.check(r1, "try_new[%s]:overspecified" % base_name, has_err(lambda c: c.get(over) is over_p and c.get(under) is (not under_p)),
                  "n_currencies < n_quotes + 1 is not rejected", where, sample="q < n + 1 -> Err")
         want_fx = Sym("create_fx_array", vkey(cur), vkey(RATES), vkey(Sym("ctor", "One")))
         okok = len(oks) == 2
         for c, v in oks:
-            okok = okok and c.get(empty) is False and c.get(under) is False and c.get(over) is False and \
+            okok = okok and c.get(empty) is False and c.get(under) is (not under_p) and c.get(over) is (not over_p) and \
                 ((c.get(some_arm) is True and c.get(all_some) is True) or (c.get(some_arm) is False and c.get(all_none) is True))
             x = v.tag[2] if len(v.tag) == 3 else None
             okok = okok and isinstance(x, Rec) and vkey(x.fields.get("fx_rates")) == vkey(RATES) and vkey(x.fields.get("currencies")) == vkey(cur) and \
@@ -133,7 +133,7 @@ def run(ck, facts, tier):
         ps = [(dict(c), v) for c, v in paths.flatten(got)]
         ax = lambda k: vkey(Sym("ctor", "Axis", Poly.const(k)))
         nn = Sym("op", "Mul", vkey(Sym("m", "len_of", E.ident(), (ax(0),))), vkey(Sym("m", "len_of", E.ident(), (ax(1),))))
-        done = vkey(Sym("cmp", "Eq", vkey(Sym("m", "sum", E.ident(), ())), vkey(nn)))
+        done = vkey(cel.eq_sym(Sym("m", "sum", E.ident(), ()), nn))
         oktrue = [(c, v) for c, v in ps if vkey(v) == vkey(Sym("ctor", "Ok", Sym("bool", "true")))]
         ck.check(r5, "Ok(true)-only-if-complete", len(oktrue) == 1 and oktrue[0][0] == {done: True}, "Ok(true) is reachable without edges.sum() == n*n", where,
                  detail=paths.fmt_paths(got)[:500], sample="[edges.sum() == rows*cols] -> Ok(true)")
@@ -194,17 +194,25 @@ def run(ck, facts, tier):
     fn = FX + "create_fx_array"
     r = facts.fn(fn)
     where = "%s:%d" % (r["file"], r["line"]) if r else None
+    FILL_OK = ("if", vkey(Sym("fill-succeeds")))
     for order, variant in (("Zero", "F64"), ("One", "Dual"), ("Two", "Dual2")):
         hk5 = dict(hk, **{FX + "create_initial_edges": lambda ev, vals, e: Arr([Poly.atom("n")] * 2, Sym("E0"), "E0"),
                           FX + "create_initial_fx_array": lambda ev, vals, e: Arr([Poly.atom("n")] * 2, Sym("M0"), "M0"),
-                          FX + "mut_arrays_remaining_elements": lambda ev, vals, e: Sym("filled?", *[v.ident() if isinstance(v, Arr) else vkey(v) for v in vals[:2]]),
+                          FX + "mut_arrays_remaining_elements": lambda ev, vals, e: cel.Alt([(FILL_OK, Sym("ctor", "Ok", Sym("bool", "true"))),
+                                                                                                     (("not", FILL_OK), Sym("ctor", "Err", Sym("fill-error")))]),
                           "dual_ops::convert::set_order_clone": lambda ev, vals, e: Sym("lifted", *[vkey(v) for v in vals])})
         try:
             got = cel.Ev(facts, hooks=hk5).apply_fn(fn, [CUR, RATES, Sym("ctor", order)], 0)
-            ok = isinstance(got, Sym) and got.tag[:2] == ("ctor", "Ok") and isinstance(got.tag[2], Sym) and got.tag[2].tag[:2] == ("ctor", variant) and \
-                isinstance(got.tag[2].tag[2], Arr) and got.tag[2].tag[2].name == "M0"
-            tries = [e for e in hir.walk(r["body"]) if e.get("k") == "try" and any(x.get("k") == "call" and x["f"].get("def", "").endswith("mut_arrays_remaining_elements") for x in hir.walk(e))]
-            ck.check(r5, "create_fx_array[%s]" % order, ok and len(tries) == 3, "create_fx_array(%s) does not return Ok(NumberArray2::%s(filled matrix)) with the fill-in's error propagated by ?"
+            # the fill-in is modelled as succeeding or failing: its failure must surface as this function's Err, its success as Ok(variant(the matrix it filled)) —
+            # whether the `?` sits here or in a helper
+            by = {}
+            for c, v in paths.flatten(cel.strip_early(got)):
+                by[dict(c).get(FILL_OK[1])] = v
+            g_ok, g_err = by.get(True), by.get(False)
+            ok = isinstance(g_ok, Sym) and g_ok.tag[:2] == ("ctor", "Ok") and isinstance(g_ok.tag[2], Sym) and g_ok.tag[2].tag[:2] == ("ctor", variant) and \
+                isinstance(g_ok.tag[2].tag[2], Arr) and g_ok.tag[2].tag[2].name == "M0"
+            ok = ok and isinstance(g_err, Sym) and g_err.tag[:2] == ("ctor", "Err") and "fill-error" in repr(vkey(g_err)) and len(by) == 2
+            ck.check(r5, "create_fx_array[%s]" % order, ok, "create_fx_array(%s) does not return Ok(NumberArray2::%s(filled matrix)) with the fill-in's error propagated by ?"
                      % (order, variant), where, detail=cel.vfmt(got)[:300], sample="mut_arrays_remaining_elements(..)?; Ok(%s(matrix))" % variant)
         except Unsupported as e:
             ck.fail(r5, "create_fx_array[%s]" % order, "rule could not be established (%s)" % e, where)
